@@ -60,6 +60,8 @@ PROPS = {
     'C18': dict(streams=[('lifecycle', 60, 2000)]),
     'C19': dict(streams=[('batch', 80, 3000)]),
     'C20': dict(streams=[('native', 80, 3000)]),
+    'C11': dict(streams=[], special=_sp.race_stress),
+    'C14': dict(streams=[], special=_sp.poke_matrix),
 }
 for k, v in PROPS.items():
     v['meaning'] = MEAN[k]
